@@ -724,6 +724,89 @@ u_big(uint64_t idx, void *arg)
     vh_sig(0x17600000ull ^ idx);
 }
 
+/* ---- counts that do not fit 31 or 32 bits: counting drivers, no memory is touched ---- */
+static struct {
+    const unsigned char *base;
+    uint64_t moved, total, percall;
+    int first; /* behaviour of the first call: 0 normal, 1 EINTR, 2 zero, 3 seven octets */
+    unsigned calls;
+    int bad_ptr, bad_ask;
+} hg;
+
+static ssize_t
+hg_step(const unsigned char *p, size_t n)
+{
+    unsigned call = hg.calls++;
+    if (hg.calls > 64)
+        return -EIO;
+    if (p != hg.base + hg.moved)
+        hg.bad_ptr = 1;
+    if (n > hg.total - hg.moved)
+        hg.bad_ask = 1;
+    if (call == 0 && hg.first == 1)
+        return -EINTR;
+    if (call == 0 && hg.first == 2)
+        return 0;
+    uint64_t k = n;
+    if (call == 0 && hg.first == 3 && k > 7)
+        k = 7;
+    if (k > hg.percall)
+        k = hg.percall;
+    hg.moved += k;
+    return (ssize_t)k;
+}
+
+static ssize_t
+hg_src(void *drv, void *out, size_t n)
+{
+    (void)drv;
+    return hg_step(out, n);
+}
+
+static ssize_t
+hg_snk(void *drv, const void *p, size_t n)
+{
+    (void)drv;
+    return hg_step(p, n);
+}
+
+static void
+u_huge(uint64_t idx, void *arg)
+{
+    (void)arg;
+    (void)idx;
+    static const uint64_t Ns[] = { 0x7fffffffull, 0x80000000ull, 0x80000010ull, 0xffffffffull, 0x100000000ull,
+                                   0x100000003ull, 0x200000005ull };
+    static const uint64_t pers[] = { 0x7fffffffull, 0x80000000ull, 0x100000000ull, 0x100000003ull, UINT64_MAX };
+    unsigned char *base = vh_arena(16);
+    Source s;
+    Sink k;
+    chunk_source_init(&s, hg_src, NULL);
+    chunk_sink_init(&k, hg_snk, NULL);
+    for (size_t ni = 0; ni < 7; ni++)
+        for (size_t pi = 0; pi < 5; pi++)
+            for (int first = 0; first < 4; first++)
+                for (int dir = 0; dir < 2; dir++) {
+                    memset(&hg, 0, sizeof hg);
+                    hg.base = base;
+                    hg.total = Ns[ni];
+                    hg.percall = pers[pi];
+                    hg.first = first;
+                    VH_CASE4(ni, pi, first, dir);
+                    ssize_t rc = dir ? sink_put_chunk(&k, base, (size_t)Ns[ni]) : source_get_chunk(&s, base, (size_t)Ns[ni]);
+                    char key[80];
+                    snprintf(key, sizeof key, "api=%s driver=chunk size=huge", dir ? "sink_put_chunk" : "source_get_chunk");
+                    if (rc != (ssize_t)Ns[ni] || hg.moved != Ns[ni] || hg.bad_ptr || hg.bad_ask)
+                        vh_fail("count", key, "N=%" PRIx64 " per call <= %" PRIx64 " first=%d: rc=%zd moved %" PRIx64 " bad pointer %d asks beyond %d",
+                                Ns[ni], pers[pi], first, rc, hg.moved, hg.bad_ptr, hg.bad_ask);
+                    (*vh_ncases)++;
+                }
+    VH_COUNT("huge transfers (a single driver call moves 2^31 octets or more)");
+    vh_sig(0x17800000ull);
+    vh_sample("huge", "source_get_chunk / sink_put_chunk of 2^31-1 .. 2^33+5 octets through counting chunk drivers that move up to "
+                      "2^32+3 octets per call (no memory is touched)");
+}
+
 /* ---- the library's own endpoints: buffer, chunk list, zero/empty/null ---- */
 static void
 u_lib(uint64_t idx, void *arg)
@@ -888,6 +971,7 @@ harness_run(void)
         vh_unit("big", i, u_big, NULL);
     for (uint64_t i = 0; i < (vh_tier ? 400u : 16u); i++)
         vh_unit("lib", i, u_lib, NULL);
+    vh_unit("huge", 0, u_huge, NULL);
     static const char *req[] = { "exact get: completed", "exact get: hard error path", "exact put: completed",
                                  "exact put: hard error path", "at-most: count returned", "at-most: error returned",
                                  "invalid count refused", "plumbing single round: moved",
@@ -897,7 +981,8 @@ harness_run(void)
                                  "random long transfers", "large transfers (counts beyond 255 / 65535)",
                                  "library endpoints: counted transfer completed",
                                  "library endpoints: source ended or sink filled up", "library endpoints: buffer source",
-                                 "library endpoints: zero/empty/null", "scripts of length 5 enumerated (chunk driver)",
+                                 "library endpoints: zero/empty/null",
+                                 "huge transfers (a single driver call moves 2^31 octets or more)", "scripts of length 5 enumerated (chunk driver)",
                                  "scripts of length 5 enumerated (octet driver)" };
     for (size_t i = 0; i < sizeof req / sizeof req[0]; i++)
         vh_require(req[i]);
